@@ -156,6 +156,24 @@ func schedRunScenario(t *testing.T, sc schedScenario, rng *vrng, rep *vreport, l
 			ctlWG.Done()
 		})
 	}
+	// heartbeat: oversleep of 1 ms sleeps from now until the verdict (a stall of the process or of the
+	// Go scheduler after the control timers have fired must widen the slack as well)
+	var hbStop atomic.Bool
+	hbDone := make(chan struct{})
+	go func() {
+		defer close(hbDone)
+		for !hbStop.Load() {
+			t0 := time.Now()
+			time.Sleep(time.Millisecond)
+			l := int64(time.Since(t0) - time.Millisecond)
+			for {
+				o := ctlMax.Load()
+				if l <= o || ctlMax.CompareAndSwap(o, l) {
+					break
+				}
+			}
+		}
+	}()
 	// submit concurrently
 	start := make(chan struct{})
 	var wg sync.WaitGroup
@@ -200,13 +218,15 @@ func schedRunScenario(t *testing.T, sc schedScenario, rng *vrng, rep *vreport, l
 		time.Sleep(time.Millisecond)
 	}
 	time.Sleep(15 * time.Millisecond) // let a duplicate execution show up
+	hbStop.Store(true)
+	<-hbDone
 	slack := limit()
 	out.ctlMax = time.Duration(ctlMax.Load())
 	out.tasks = total
 	replay := func(tk *schedTask) map[string]any {
 		return map[string]any{"scenario": sc, "task": tk.id, "class": tk.class,
 			"deadline_minus_put_us": tk.deadline.Sub(tk.putAt).Microseconds(),
-			"runs": tk.runs.Load(), "late_us": time.Duration(tk.lateNs.Load()).Microseconds(),
+			"runs":                  tk.runs.Load(), "late_us": time.Duration(tk.lateNs.Load()).Microseconds(),
 			"control_latency_us": out.ctlMax.Microseconds(), "slack_ms": slack.Milliseconds(),
 			"how": fmt.Sprintf("GODEBUG=%s VERIF_SEED=%d go test -tags verif -run TestVerifC17 (scenario %s parallel=%d round=%d)", sc.Mode, vSeed(), sc.Kind, sc.Parallel, sc.Round)}
 	}
@@ -343,7 +363,7 @@ func schedCloseSample(sc schedScenario, rep *vreport, lg *vlog) (dropped, ran in
 	}
 	time.Sleep(5 * time.Millisecond)
 	ts.Close()
-	ts.Close() // idempotent
+	ts.Close()                    // idempotent
 	ts.Put(func() {}, time.Now()) // must not panic or block
 	time.Sleep(120 * time.Millisecond)
 	for i := 0; i < n; i++ {
@@ -440,7 +460,7 @@ func TestVerifC17(t *testing.T) {
 	rep.Extra["median_worst_late_us"] = lates[len(lates)/2]
 	rep.Extra["worst_control_latency_us"] = worstCtl.Microseconds()
 	rep.Extra["base_slack_ms"] = schedBaseSlack.Milliseconds()
-	rep.Extra["slack_rule"] = fmt.Sprintf("%v + %d x (worst latency of 8 plain time.AfterFunc control timers in the same scenario)", schedBaseSlack, schedCtlFactor)
+	rep.Extra["slack_rule"] = fmt.Sprintf("%v + %d x (worst latency, in the same scenario, of 8 plain time.AfterFunc control timers and of a 1 ms sleep heartbeat)", schedBaseSlack, schedCtlFactor)
 	rep.write(t, "C17.report.json")
 	if len(rep.Violations) > 0 {
 		t.Logf("%d violations, first: %s", len(rep.Violations), rep.Violations[0].What)
